@@ -21,7 +21,7 @@ def fabs(eng, x):
 def sqrt(eng, st, x, ty):
     if eng.fmode == "fp":
         return SV(z3.fpSqrt(z3.RNE(), x.e))
-    key = ("sqrt", x.e.get_id())
+    key = ("sqrt", eng.nf_key(x.e))
     w = eng.atom_cache.get(key)
     if w is None:
         w = eng.fresh("sqrt", z3.RealSort())
